@@ -469,6 +469,10 @@ def explore(ctx, sc, frames, bound, cap, n_pct, observed, model=True):
         ctx.nontrivial((sc["name"], out))
         if bad:
             state["found"] += 1
+            if state["found"] == 1:      # the saved schedule must reproduce the run exactly
+                again = Run(sc, dsched.Replay(run.choices), frames)
+                if again.outcome() != out:
+                    ctx.note(f"{sc['name']}: schedule replay diverged ({again.outcome()} vs {out})")
             ctx.violation(f"{sc['name']}: {bad[0]}", {"scenario": sc, "schedule": run.choices, "violations": bad[:5]})
         elif model:
             observed.setdefault(out, run.choices)
@@ -514,8 +518,8 @@ def run(ctx):
                          "oracle and looked up in the outcome set of the Lean block model")
     frames = Frames()
     bound = ctx.scale(2, 3)
-    cap = ctx.scale(220, 6000)
-    n_pct = ctx.scale(40, 1500)
+    cap = ctx.scale(150, 6000)
+    n_pct = ctx.scale(30, 1500)
     # corpus first
     for name, c in corpus("C15"):
         case = c.get("case", c)
